@@ -400,8 +400,15 @@ def basis_function_ders_one(degree, knot_vector, span, knot, order):
     """
     ders = [0.0 for _ in range(0, order + 1)]
 
+    def in_knot_span(idx):
+        # Knot spans are half-open, except the last non-empty one which is closed at the end of the knot vector
+        # (as in knot span finding and the other basis function algorithms)
+        if knot_vector[idx] <= knot < knot_vector[idx + 1]:
+            return True
+        return knot_vector[idx] < knot == knot_vector[idx + 1] == knot_vector[-1]
+
     # Knot is outside of span range
-    if (knot < knot_vector[span]) or (knot >= knot_vector[span + degree + 1]):
+    if not any(in_knot_span(span + j) for j in range(0, degree + 1)):
         for k in range(0, order + 1):
             ders[k] = 0.0
 
@@ -411,7 +418,7 @@ def basis_function_ders_one(degree, knot_vector, span, knot, order):
 
     # Initializing the zeroth degree basis functions
     for j in range(0, degree + 1):
-        if knot_vector[span + j] <= knot < knot_vector[span + j + 1]:
+        if in_knot_span(span + j):
             N[j][0] = 1.0
 
     # Computing all basis functions values for all degrees inside the span
